@@ -23,12 +23,42 @@ def ref_split(text, delim):
 
 
 def corpus(rnd, tier):
-    base = ["", "a", "\n", "a\n", "a\nb", "a\nb\n", "\n\n", "aaaa\nbbbb\ncccc\ndddd\n", "ab||cd||", "aaa", "aaaa", "xaaxaaax", "a|b|", "|", "||", "é\nü\n\n∂x",
+    base = ["", "a", "\n", "a\n", "a\nb", "a\nb\n", "\n\n", "aaaa\nbbbb\ncccc\ndddd\n", "ab||cd||", "aaa", "aaaa", "xaaxaaax", "x|||y", "x||||", "|||", "ababab|", "a|b|", "|", "||", "é\nü\n\n∂x",
             "page one\x0cpage two\nline\x85still same\n", "a\rb\r\nc\n", "no delimiter at all", "trail\n\n\n"]
     alph = "ab\n|\r" if tier == "quick" else "abc\n|\r\x0cé"
     for _ in range(60 if tier == "quick" else 600):
         base.append("".join(rnd.choice(alph) for _ in range(rnd.randrange(0, 24))))
     return base
+
+
+def big_file_cases(d, cases_fails):
+    """files larger than the usual buffer sizes, a multi-character delimiter lying across 8Ki/16Ki/32Ki/64Ki/128Ki
+    character positions, text after the last delimiter: same lines for blocksize None and large blocksizes"""
+    import dask.bag as db
+
+    cases, fails = cases_fails
+    for positions in ([65536], [8192, 16384, 32768, 65536, 131072], [65536, 131072 + 1]):
+        n = positions[-1] + 5
+        buf = ["x"] * n
+        for pos in positions:
+            buf[pos - 1], buf[pos] = "|", "|"
+        text = "a||" + "".join(buf[3:]) if buf[0:3] == ["x", "x", "x"] else "".join(buf)
+        p = os.path.join(d, f"big{len(positions)}-{positions[-1]}.txt")
+        with open(p, "w", encoding="utf-8") as f:
+            f.write(text)
+        want = ref_split(text, "||")
+        for kw in ({"blocksize": None}, {"blocksize": None, "files_per_partition": 1}, {"blocksize": None, "include_path": True}, {"blocksize": 50000}, {"blocksize": 2 ** 16}, {"blocksize": 10 ** 6}):
+            cases += 1
+            try:
+                got = db.read_text(p, linedelimiter="||", **kw).compute()
+                if kw.get("include_path"):
+                    got = [g[0] for g in got]
+                msg = None if got == want else f"read_text({kw}) gives {len(got)} lines (lengths {[len(g) for g in got][:8]}), the file split after each '||' has {len(want)} (lengths {[len(w) for w in want][:8]})"
+            except Exception as e:  # noqa
+                msg = f"{type(e).__name__}: {e}"
+            if msg:
+                fails.append(rtc.Failure("read_text", {"content": f"<{len(text)} characters, '||' across positions {positions}>", "linedelimiter": "||", "blocksize": kw.get("blocksize"), "self_overlapping_delimiter": False, "options": {k: v for k, v in kw.items() if k != "blocksize"}}, "ensures", "C50-lines-equal-split-after-delimiter", msg))
+    return cases
 
 
 def sweep(tier, seed=0):
@@ -43,6 +73,7 @@ def sweep(tier, seed=0):
     budget = 60 if tier == "quick" else 1200
     try:
         with dask.config.set(scheduler="sync"):
+            cases = big_file_cases(d, (cases, fails))
             for idx, text in enumerate(corpus(rnd, tier)):
                 p = os.path.join(d, f"f{idx}.txt")
                 data = text.encode("utf-8")
@@ -146,6 +177,6 @@ def sweep(tier, seed=0):
     finally:
         shutil.rmtree(d, ignore_errors=True)
     return {"function": "dask/bytes/core.py:read_bytes, dask/bag/text.py:read_text (real code, real files)", "bounded": True,
-            "bound": {"contents": "20 hand-picked (empty, no/trailing/runs of delimiters, self-overlapping, unicode, form feed) + random", "delimiters": ["\\n", "|", "||", "aa"], "blocksizes": "1,2,3,5,7,len/2,len+1, None", "tiling": "every file size 1..130 (quick) / 1..400 x blocksize 1..16 x not_zero, no delimiter"},
+            "bound": {"contents": "20 hand-picked (empty, no/trailing/runs of delimiters, self-overlapping, unicode, form feed) + random", "delimiters": ["\\n", "|", "||", "aa"], "blocksizes": "1,2,3,5,7,len/2,len+1, None", "large files": "3 files of 64Ki-128Ki characters with '||' lying across 8Ki..128Ki positions, blocksize None / 50000 / 65536 / 1e6, files_per_partition, include_path", "tiling": "every file size 1..130 (quick) / 1..400 x blocksize 1..16 x not_zero, no delimiter"},
             "cases": cases, "distinct_nontrivial": cases, "failures_found": len(fails), "wall_s": round(time.time() - t0, 2),
             "samples": [{"native_case": {"content": "a|b|", "linedelimiter": "|", "blocksize": 2}}], "failures": fails[:200]}
